@@ -57,7 +57,7 @@ def run(chk):
     chk.cov.update({"states": mc.get("distinct", 0) + r["states"] + rs["states"], "transitions": mc.get("generated", 0) + r["states"] + rs["states"],
                     "traces_validated_against_impl": vlib.NCPU + 8, "evaluations": r["events"] + rs["events"], "distinct_nontrivial": r["cases"] + rs["cases"],
                     "record_level_cases": r["cases"], "stream_level_scripts": rs["cases"],
-                    "rule": "record level, on long-lived components built by the loader code from the repository's sample configuration and from the C16 base file: every head of up to %d symbols over {< > 1 9 space - a ~ backslash} x 3 continuations; every header field and the message x ~95 value classes (empty, NIL, quotes, backslash endings, invalid UTF-8 of every kind, NUL, control bytes, 255/256/257 bytes, 64 KiB, timestamp shapes, numbers, config-relevant values), pairs of fields over the class set (quick: 1/7 sample + the first 14x14), fields at the maximum message / record length +-1 in 7 byte kinds, %d seeded random and mutated lines; each between two sentinel records whose decoded output must not change; stream level, agent in a child process with RLIMIT_NOFILE 160: garbage, lines at the record / listener-buffer limits +-1, 3 MB header fields, resets at every third offset, half-open connections, missing newline, CRLF, slow drip, hostile key-field values (dot-dot, NUL, 5000 bytes, invalid UTF-8), concurrent garbage with resets, %d connect/disconnect cycles" % (5 if chk.tier == "thorough" else 4, 200000 if chk.tier == "thorough" else 3000, 1500 if chk.tier == "thorough" else 400),
+                    "rule": "record level, on long-lived components built by the loader code from the repository's sample configuration and from the C16 base file: every head of up to %d symbols over {< > 1 9 space - a ~ backslash} x 3 continuations; every header field and the message x ~95 value classes (empty, NIL, quotes, backslash endings, invalid UTF-8 of every kind, NUL, control bytes, 255/256/257 bytes, 64 KiB, timestamp shapes, numbers, config-relevant values), pairs of fields over the class set (quick: 1/7 sample + the first 14x14), fields at the maximum message / record length +-1 in 7 byte kinds, %d seeded random and mutated lines; each between two sentinel records whose decoded output must not change; stream level, agent in a child process with RLIMIT_NOFILE 160: garbage, lines at the record / listener-buffer limits +-1, 3 MB header fields, resets at every third offset, half-open connections, missing newline, CRLF, slow drip, hostile key-field values (dot-dot, NUL, 5000 bytes, invalid UTF-8), concurrent garbage with resets, %d connect/disconnect cycles" % (6 if chk.tier == "thorough" else 4, 1000000 if chk.tier == "thorough" else 3000, 1500 if chk.tier == "thorough" else 400),
                     "samples": [e for e in first if e["ev"] == "Rec"][:2]})
     chk.assumptions += ["'for all byte strings' is covered as the bounded alphabets, value classes, limits and seeded mutations listed under rule; a crash that needs a byte pattern outside them is not found",
                         "records reach the parser as the listener can deliver them: at most the listener buffer (4 x maximum record length)",
